@@ -5,6 +5,7 @@ import (
 	"encoding/hex"
 	"fmt"
 	"io"
+	"math/big"
 	"runtime/debug"
 	"strings"
 	"testing"
@@ -244,7 +245,10 @@ type c33Reader struct {
 }
 
 // prefixedInt is RFC 7541 §5.1. ok=false: truncated. huge=true: the value is
-// at least 2^63 (certainly beyond every table and every section length).
+// at least 2^62, i.e. beyond the 62 bits RFC 9204 §4.1.1 requires a decoder to
+// handle and certainly beyond every table and every section length (the
+// callers reject it as non-zero / out of range / longer than the section; it
+// is never reduced modulo anything).
 // Continuation octets beyond the ninth that contribute nothing (value bits all
 // zero) are legal but RFC 7541 §5.1 lets an implementation refuse such
 // lengths: the reader is then marked open (either verdict is acceptable).
@@ -870,6 +874,16 @@ func TestVerif_C33(t *testing.T) {
 					return
 				}
 			}
+			// oversized prefixed integers at every integer site
+			for _, k := range c33OversizedInts() {
+				if seen[k.Hex] {
+					continue
+				}
+				seen[k.Hex] = true
+				if !yield(k) {
+					return
+				}
+			}
 			// every static index in both referencing forms (and beyond the table)
 			for idx := int64(0); idx <= 130; idx++ {
 				if !emit(c33AppendPrefixedInt([]byte{0, 0}, 0xc0, 6, uint64(idx)), "", "indexed line, static index") {
@@ -1070,5 +1084,134 @@ func c33Constructed() []c33Bytes {
 	add("reject", "regular then pseudo (literal name)", pint(0xc0, 6, 2), str(0x20, 3, ":x"), str(0, 7, "v"))
 	add("reject", "regular then pseudo (huffman literal name)", pint(0xc0, 6, 2), huff(0x20, 3, ":path"), str(0, 7, "v"))
 	add("accept", "literal pseudo then regular", str(0x20, 3, ":x"), str(0, 7, "v"), pint(0xc0, 6, 2))
+	return out
+}
+
+// c33AppendBigPrefixedInt is RFC 7541 §5.1 for a value of any size (used only
+// to build inputs): a value >= 2^n - 1 gets the all-ones prefix followed by
+// value - (2^n - 1) in 7-bit groups, least significant first, as many octets
+// as it takes (10 octets for a continuation in [2^63, 2^70), 11 beyond).
+func c33AppendBigPrefixedInt(b []byte, first byte, n uint, v *big.Int) []byte {
+	mask := big.NewInt(1<<n - 1)
+	if v.Cmp(mask) < 0 {
+		return append(b, first|byte(v.Uint64()))
+	}
+	b = append(b, first|byte(mask.Uint64()))
+	rest := new(big.Int).Sub(v, mask)
+	b128 := big.NewInt(128)
+	for rest.Cmp(b128) >= 0 {
+		lo := new(big.Int).And(rest, big.NewInt(127))
+		b = append(b, byte(lo.Uint64())|128)
+		rest.Rsh(rest, 7)
+	}
+	return append(b, byte(rest.Uint64()))
+}
+
+// c33OversizedInts builds, for every place of an encoded field section where
+// the decoder reads a prefixed integer (Required Insert Count 8+, Delta Base
+// 7+, indexed field line 6+, name reference 4+, literal name length 3+, value
+// length 7+; every flag combination of the first octet), and for every small
+// value k from a boundary set of that place, the section that would be
+// well-formed if the integer were k, with the integer replaced by
+//
+//	k + 2^w for w in {31, 32, 62, 63, 64, 65, 70}
+//
+// i.e. an oversized integer that is congruent to the small value k modulo
+// 2^w: a decoder that truncates to int32 / uint32 / 62 bits / int64 / uint64,
+// lets "continuation + prefix mask" wrap around, or drops the bits a 10th /
+// 11th continuation octet carries beyond 64 would read k. The continuation of
+// k + 2^63 is a 9-octet varint below 2^63 when k < 2^n - 1 and a 10-octet one
+// otherwise; that of k + 2^64 is a 10-octet varint in the top 2^n - 1 values of
+// uint64 (last octet 0x01) when k < 2^n - 1 and exceeds 64 bits otherwise.
+// Added to these are the values 2^62-1, 2^62, 2^63-1, 2^63, 2^64-1 themselves
+// and the continuations 2^63-1, 2^63, 2^64-1 (the largest 9-octet and the
+// smallest and largest 64-bit 10-octet varints), and the plain encoding of k as
+// the accepted side. Every oversized integer is >= 2^31 and so must be
+// rejected at every place (non-zero Required Insert Count, index beyond the
+// 99-entry table, string longer than the section) except Delta Base, which the
+// property leaves open.
+func c33OversizedInts() []c33Bytes {
+	var out []c33Bytes
+	type site struct {
+		desc   string
+		pre    []byte
+		firsts []byte // first octet with the integer bits zero, one per flag combination
+		n      uint
+		ks     []uint64
+		tail   func(first byte, k uint64) []byte
+		ok     func(first byte, k uint64) string // verdict of the plain encoding of k
+	}
+	fixed := func(t ...byte) func(byte, uint64) []byte { return func(byte, uint64) []byte { return t } }
+	// a string body of k octets: 'a' raw, or k times the 8-bit Huffman code of '&' (0xf8)
+	body := func(hbit byte, then ...byte) func(byte, uint64) []byte {
+		return func(first byte, k uint64) []byte {
+			x := byte('a')
+			if first&hbit != 0 {
+				x = 0xf8
+			}
+			return append(bytes.Repeat([]byte{x}, int(k)), then...)
+		}
+	}
+	acceptIf := func(c bool) string {
+		if c {
+			return "accept"
+		}
+		return "reject"
+	}
+	sites := []site{
+		{"required insert count", nil, []byte{0x00}, 8, []uint64{0, 1, 254, 255}, fixed(0x00, 0xd1),
+			func(_ byte, k uint64) string { return acceptIf(k == 0) }},
+		{"delta base", []byte{0x00}, []byte{0x00, 0x80}, 7, []uint64{0, 1, 126, 127}, fixed(0xd1),
+			func(f byte, k uint64) string {
+				if f == 0 && k == 0 {
+					return "accept"
+				}
+				return "" // open
+			}},
+		{"indexed field line", []byte{0, 0}, []byte{0xc0, 0x80}, 6, []uint64{0, 17, 62, 63, 98}, fixed(),
+			func(f byte, k uint64) string { return acceptIf(f&0x40 != 0 && k < 99) }},
+		{"literal with name reference", []byte{0, 0}, []byte{0x50, 0x70, 0x40, 0x60}, 4, []uint64{0, 1, 14, 15, 98}, fixed(0x01, 'v'),
+			func(f byte, k uint64) string { return acceptIf(f&0x10 != 0 && k < 99) }},
+		{"literal name length", []byte{0, 0}, []byte{0x20, 0x28, 0x30, 0x38}, 3, []uint64{0, 1, 3, 6, 7, 8}, body(0x08, 0x01, 'v'),
+			func(_ byte, k uint64) string { return acceptIf(k > 0) }},
+		{"value length after a name reference", []byte{0, 0, 0x51}, []byte{0x00, 0x80}, 7, []uint64{0, 1, 126, 127, 128}, body(0x80),
+			func(byte, uint64) string { return "accept" }},
+		{"value length after a literal name", []byte{0, 0, 0x23, 'a', 'b', 'c'}, []byte{0x00, 0x80}, 7, []uint64{0, 1, 126, 127, 128}, body(0x80),
+			func(byte, uint64) string { return "accept" }},
+	}
+	pow := func(w uint) *big.Int { return new(big.Int).Lsh(big.NewInt(1), w) }
+	for _, s := range sites {
+		mask := big.NewInt(1<<s.n - 1)
+		over := "reject"
+		if s.desc == "delta base" {
+			over = "" // open: the property says nothing about Delta Base
+		}
+		for _, first := range s.firsts {
+			emit := func(want, what string, v *big.Int, k uint64) {
+				b := append([]byte{}, s.pre...)
+				b = c33AppendBigPrefixedInt(b, first, s.n, v)
+				b = append(b, s.tail(first, k)...)
+				out = append(out, c33Bytes{Hex: hex.EncodeToString(b), Want: want,
+					Desc: fmt.Sprintf("%s, first octet %#02x, %d-bit prefix: integer %s", s.desc, first, s.n, what)})
+			}
+			for _, k := range s.ks {
+				kb := new(big.Int).SetUint64(k)
+				emit(s.ok(first, k), fmt.Sprintf("%d", k), kb, k)
+				for _, w := range []uint{31, 32, 62, 63, 64, 65, 70} {
+					emit(over, fmt.Sprintf("%d+2^%d", k, w), new(big.Int).Add(kb, pow(w)), k)
+				}
+			}
+			k0 := s.ks[1]
+			for _, w := range []uint{62, 63, 64} {
+				emit(over, fmt.Sprintf("2^%d-1", w), new(big.Int).Sub(pow(w), big.NewInt(1)), k0)
+				emit(over, fmt.Sprintf("2^%d", w), pow(w), k0)
+				// continuation = 2^w-1 / 2^w (w < 64)
+				emit(over, fmt.Sprintf("mask+2^%d-1", w), new(big.Int).Add(mask, new(big.Int).Sub(pow(w), big.NewInt(1))), k0)
+				if w < 64 {
+					emit(over, fmt.Sprintf("mask+2^%d", w), new(big.Int).Add(mask, pow(w)), k0)
+				}
+			}
+		}
+	}
 	return out
 }
